@@ -36,10 +36,13 @@
       url_crawl::LinkIter (data[pos+1..], quote[..ending], data[..=pos],
         data[advance..]; file / upstream content)                        UrlCrawl.link_iter       link_iter_never_panics; REPAIRED (fa13a8b),
                                                                                                  link_iter_v0_refuted
+      kvarn-extensions templates: extract_templates / handle_template (file.slice x2,
+        unwrap x5, file[start..position - 1]; file content)             Templates.render         template_engine_never_panics; REPAIRED (fe1115a),
+                                                                                                 template_engine_v0_refuted
       is_part_of_origin / check_cors_request                            Cors (total functions)   stage of request_path
       http, time, moka, tokio, compressors, other extensions            not modelled             exploration run only *)
 From Coq Require Import ZArith.
-From KV Require Import Bytes RustInt RustStd Panics PanicsProofs Ims ImsProofs UrlCrawl UrlCrawlProofs.
+From KV Require Import Bytes RustInt RustStd Panics PanicsProofs Ims ImsProofs UrlCrawl UrlCrawlProofs Templates TemplatesProofs.
 From KV Require PathSan PathSanProofs Range RangeProofs RangeConn RangeConnProofs Http1Read Hosts HostsProofs
   Negotiate ListHeaderProofs Limiter LimiterProofs Nonce NonceProofs PresentLine PresentLineProofs CacheControl Cors.
 Open Scope N_scope.
@@ -181,6 +184,21 @@ Theorem link_iter_v0_refuted :
   link_iter false filter_resource false unclosed = Ok [IPath (B "/abc") (B "<img src=" ++ [34]) 1].
 Proof. exact link_iter_v0_panics. Qed.
 
+(** ** The template engine of kvarn-extensions ([!> tmpl <file>]: [handle_template] on the served page,
+    [extract_templates] on the operator's template file; file content): repaired, it never panics — for every
+    template file (or none) and every page body. *)
+Theorem template_engine_never_panics : forall (tfile : option bytes) (body : bytes), render false tfile body <> Panic.
+Proof. exact render_no_panic. Qed.
+
+(** [extract_templates] as it was ([file.slice(start..len - trim)]): a template file whose last template is empty and
+    ends in a line feed panics — on every request for a page that asks for a template (a page without a complete
+    placeholder never reads the file); the repaired code renders the empty template. *)
+Theorem template_engine_v0_refuted :
+  extract_templates true empty_last = Panic /\ render true (Some empty_last) (B "<p>$[a]</p>") = Panic /\
+  render false (Some empty_last) (B "<p>$[a]</p>") = Ok (B "<p></p>") /\
+  render true (Some empty_last) (B "<p>no placeholder $[</p>") = Ok (B "<p>no placeholder ").
+Proof. exact render_v0_panics. Qed.
+
 (** ** [kvarn-cache-control] (a RESPONSE header of a handler / upstream server, not client input) *)
 
 Theorem kvarn_cache_control_unchecked_never_panics : forall h : bytes,
@@ -295,6 +313,12 @@ Example ex_ims :
   parse_http_date (B "Tue, 27 Jul 99999 14:08:15 GMT") = None /\ parse_http_date (B "Tue, 27 jul 2021 14:08:15 GMT") = None /\
   parse_http_date (B "Sat, 29 Feb 2020 12:00:00 GMT") = Some 1582977600%Z /\ parse_http_date (B "Mon, 29 Feb 2100 12:00:00 GMT") = None.
 Proof. vm_compute. repeat split. Qed.
+(** Templates: placeholders, an escaped one, an escaped escape, an unknown name, the tmpl-ignore line. *)
+Example ex_render :
+  render false (Some (B "$[head]" ++ [10] ++ B "<h1>" ++ [10] ++ B "$[x] X" ++ [10]))
+         (B "<!-- tmpl-ignore -->" ++ [10] ++ B "$[head]|$[x]|\$[x]|\\$[x]|$[none]|$[") =
+  Ok (B "<h1>|X|$[x]|\X||").
+Proof. vm_compute. reflexivity. Qed.
 Example ex_stream_window : stream_window true (Some (2, 6)) 10 = Ok (2, 6, 4).
 Proof. vm_compute. reflexivity. Qed.
 (** A 70000-byte file, the window 65535..65537 straddles the first buffer: two reads, chunks of 1 and 1 byte. *)
